@@ -1,5 +1,11 @@
+#[cfg(not(logicalshift_desync_verif))]
 use std::thread;
+#[cfg(logicalshift_desync_verif)]
+use desync_verif_rt::thread;
+#[cfg(not(logicalshift_desync_verif))]
 use std::sync::mpsc::*;
+#[cfg(logicalshift_desync_verif)]
+use desync_verif_rt::sync::mpsc::*;
 
 ///
 /// Creates a FnMut that runs a FnOnce once (or panics)
